@@ -62,13 +62,14 @@ theorem C03_tie_base_helpers_do_not_sign :
 
 /-- guard order: duty admission before state reset before execution; in `baseConsensusMsgProcessing` the controller runs
     first (after `prevDecided` was read from the instance object and — second `hasRunningDuty` — from the duty's decided
-    value, fix c50569811), then the running-duty check, `didDecideCorrectly`, decoding, and the value check — all before
+    value, fix c50569811; the `Decode`/`hasRunningDuty` pair before `ProcessMsg` is the flattened body of the unlisted helper
+    `processPreConsensusJustification`), then the running-duty check, `didDecideCorrectly`, decoding, and the value check — all before
     `ProcessConsensus` signs; partial-signature validation order; routing by validator key and role -/
 theorem C03_tie_guard_order :
     Gen.calls_baseStartNewDuty = ["ShouldProcessDuty", "baseSetupForNewDuty", "executeDuty"] ∧
     Gen.calls_baseStartNewNonBeaconDuty = ["ShouldProcessNonBeaconDuty", "baseSetupForNewDuty", "executeDuty"] ∧
-    Gen.calls_baseConsensusMsgProcessing = ["hasRunningDuty", "IsDecided", "hasRunningDuty", "ProcessMsg", "compactInstanceIfNeeded",
-      "hasRunningDuty", "didDecideCorrectly", "Decode", "validateDecidedConsensusData"] ∧
+    Gen.calls_baseConsensusMsgProcessing = ["hasRunningDuty", "IsDecided", "hasRunningDuty", "Decode", "hasRunningDuty",
+      "ProcessMsg", "compactInstanceIfNeeded", "hasRunningDuty", "didDecideCorrectly", "Decode", "validateDecidedConsensusData"] ∧
     Gen.calls_validateDecidedConsensusData = ["Encode", "GetValCheckF"] ∧
     Gen.calls_decide = ["Encode", "GetValCheckF", "StartNewInstance", "InstanceForHeight", "registerTimeoutHandler"] ∧
     Gen.calls_ValidatePostConsensusMsg_full = ["hasRunningDuty", "IsDecided", "Decode", "validatePartialSigMsgForSlot",
